@@ -15,7 +15,7 @@ import (
 //
 //zz:opt loop=16 timeout=60000 merge=~/pkg/collection/ints.Max[uint32],~/pkg/collection/ints.Min[uint32],~/pkg/collection/ints.Min[int]
 //zz:quick L=3 n=2 sets=2 trunc=2 budget=400s
-//zz:thorough L=4 n=2 sets=2 trunc=3 budget=40m
+//zz:thorough L=4 n=2 sets=2 trunc=3 budget=90m paths=6000000
 func zzH_C02_step_reference(t *zzT) {
 	L, n := t.Param("L", 3), t.Param("n", 2)
 	s := zzBuildBFT(t, L, n, t.Param("sets", 1))
